@@ -137,3 +137,22 @@ Theorem C12_int64_merge : forall a b pr ps, Forall times64 (items a) -> Forall t
 Proof. exact (merge_closed in_i64). Qed.
 Print Assumptions C12_int64.
 Print Assumptions C12_int64_merge.
+
+(* ---- consequences a caller relies on (session 5): ordering an ordered list changes nothing, so Order is idempotent
+   and never changes the number of cues; merging an empty list is ordering the receiver ---- *)
+Theorem C12_order_fixes_sorted : forall l, sorted l -> order l = l.
+Proof. exact order_sorted_id. Qed.
+Theorem C12_order_idempotent : forall l, order (order l) = order l.
+Proof. exact order_idem. Qed.
+Theorem C12_order_length : forall l, length (order l) = length l.
+Proof. exact order_length. Qed.
+Theorem C12_merge_empty : forall a b pr ps, items b = [] -> items (merge a b pr ps) = order (items a).
+Proof. exact merge_empty_b. Qed.
+Theorem C12_merge_sorted_disjoint_times : forall a b pr ps,
+  sorted (items a ++ items b) -> items (merge a b pr ps) = items a ++ items b.
+Proof. exact merge_sorted_concat. Qed.
+Print Assumptions C12_order_fixes_sorted.
+Print Assumptions C12_order_idempotent.
+Print Assumptions C12_order_length.
+Print Assumptions C12_merge_empty.
+Print Assumptions C12_merge_sorted_disjoint_times.
